@@ -610,6 +610,12 @@ func randTup(r *Rng, typ string, format int, distinct bool) string {
 	case "SMB_STRING", "OEM_STRING":
 		n := r.Pick(0, 1, 2, 5, 12, 40)
 		b := r.BytesFrom(n, []byte("abcXYZ\\._-$ 09"))
+		if n >= 2 && r.Intn(4) == 0 { // strings are bytes: high bytes and UTF-8 sequences must survive
+			k := r.Intn(n - 1)
+			b[k], b[k+1] = 0xC3, 0xA9
+		} else if n >= 1 && r.Intn(6) == 0 {
+			b[r.Intn(n)] = byte(0x80 + r.Intn(128))
+		}
 		return fmt.Sprintf("%d,%d|%s", format, len(b), hx(b))
 	case "SMB_RESUME_KEY":
 		rsv := r.Intn(256)
